@@ -51,6 +51,7 @@ DRV(c3, Vec3c, signed char)
 DRV(s3, Vec3s, short)
 DRV(d2, Vec2d, double)
 DRV(d4, Vec4d, double)
+DRV(f3, Vec3f, float)
 
 Vec3i i3_cross(const Vec3i &a, const Vec3i &b) { return a % b; }
 Vec3i i3_cross_free(const Vec3i &a, const Vec3i &b) { return cross(a, b); }
@@ -62,6 +63,7 @@ auto s3_cross(const Vec3s &a, const Vec3s &b) { return a % b; }
 auto s3_cross_free(const Vec3s &a, const Vec3s &b) { return cross(a, b); }
 auto s3_cross_member(const Vec3s &a, const Vec3s &b) { return a.cross(b); }
 Vec3d d3_cross(const Vec3d &a, const Vec3d &b) { return a % b; }
+Vec3f f3_cross(const Vec3f &a, const Vec3f &b) { return a % b; }
 Vec3i i3_make(int x, int y, int z) { return Vec3i(x, y, z); }
 Vec3d d3_from_i3(const Vec3i &a) { return Vec3d(a); }
 Vec3i i3_from_d3(const Vec3d &a) { return Vec3i(a); }
